@@ -4,6 +4,7 @@ set -u
 cd "$(dirname "$0")"
 export GOFLAGS=-mod=mod GOPROXY=off GOSUMDB=off GOTOOLCHAIN=local
 ROOT="$(pwd)"
+export VERIF_ROOT="$ROOT"
 mkdir -p "$ROOT/.work/bin"
 build() {
   (cd "$ROOT/harness" && go build -race -tags verif -o "$ROOT/.work/bin/vcheck" ./cmd/vcheck) || { echo "BROKEN: build (race) failed"; exit 2; }
